@@ -13,6 +13,7 @@ import (
 	"strings"
 	"sync"
 	"testing"
+	"time"
 
 	"verif/internal/gen"
 	"verif/internal/kf"
@@ -63,6 +64,7 @@ func TestCompileResponse(t *testing.T) { campaign(t, gen.Response()) }
 func TestCompileErrors(t *testing.T)   { campaign(t, gen.Errors()) }
 func TestCompileSecurity(t *testing.T) { campaign(t, gen.Security()) }
 func TestCompileWide(t *testing.T)     { campaign(t, gen.Wide()) }
+func TestCompileGRPC(t *testing.T)     { campaign(t, gen.GRPCProfile()) }
 
 func campaign(t *testing.T, prof gen.Profile) {
 	if rt.ReplayDir() != "" {
@@ -76,6 +78,7 @@ func campaign(t *testing.T, prof gen.Profile) {
 		t.Fatalf("INCONCLUSIVE: %v", err)
 	}
 	defer sess.Close()
+	sess.GenTimeout = 60 * time.Second
 	prof.Avoid = gen.OpenQuirks()
 
 	outs := make([]*pipeline.Outcome, n)
@@ -88,7 +91,12 @@ func campaign(t *testing.T, prof gen.Profile) {
 			defer wg.Done()
 			sem <- struct{}{}
 			defer func() { <-sem }()
-			d := gen.Design(prof).Example(seed*1000003 + i)
+			var d *m.Design
+			if prof.GRPC && prof.Name == "grpc" {
+				d = gen.GRPCDesign(prof).Example(seed*1000003 + i)
+			} else {
+				d = gen.Design(prof).Example(seed*1000003 + i)
+			}
 			designs[i] = d
 			outs[i] = sess.GenerateAndCompile(d, true)
 		}(i)
